@@ -184,6 +184,37 @@ def r01_1(rep, prog):
         okv = bool(clamp) and all(cg.pos_dominates((clamp[0][0], clamp[0][1]), (b, i)) for b, i, d in vlas) and len(vlas) >= 3
         (rep.holds if okv else rep.violated)('R01.1', '%s:%s clamps frame_size before every stack allocation' % (prog.config, g.name), g.where(),
                                              '%d clamp(s) `frame_size = min(frame_size, .)`, %d variable-length arrays' % (len(clamp), len(vlas)), **({} if okv else {'key': 'frame-clamp'}))
+        # the SILK bounce buffer: used exactly when the caller's capacity is below the buffer's own size
+        vla = {d[2]: sx.A(d).get('vla') for b, i, s_ in cg.positions() if sx.kind(s_) == 'decls' for d in s_[1] if d[0] == 'decl' and 'vla' in sx.A(d)}
+        for b, i, c in [s for s in sinks if sx.callee_name(s[2]) == 'silk_Decode']:
+            outp = sx.strip(c[2][5]) if len(c[2]) > 5 else None
+            if outp is None or sx.kind(outp) != 'local':
+                continue
+            defs = decide.find_assign(g, outp[1])
+            bounce = [sx.strip(r) for lv, r in defs if sx.kind(sx.strip(r)) == 'local' and sx.strip(r)[2] in vla]
+            if not bounce:
+                continue
+            # size of the bounce buffer: K * channels  (through the size local)
+            size_local = vla[bounce[0][2]]
+            kexprs = []
+            for lv, r in decide.find_assign(g, sx.strip(size_local)[1]) if sx.kind(sx.strip(size_local)) == 'local' else []:
+                rr = sx.strip(r)
+                if sx.kind(rr) == 'bin' and rr[1] == '*':
+                    kexprs += [x for x in (sx.strip(rr[2]), sx.strip(rr[3])) if sx.kind(x) == 'local']
+            # the flag that selects the bounce buffer
+            flags = [cond for cond, pol, gb in cfgm.guards_of(cg, [b2 for b2, i2, n2 in cg.find(lambda n2: n2[0] == 'assign' and sx.key(n2[1]) == sx.key(outp) and sx.key(sx.strip(n2[2])) == sx.key(bounce[0]))][0]) if cond is not None]
+            flagdefs = []
+            for fl_ in flags:
+                if sx.kind(sx.strip(fl_)) == 'local':
+                    flagdefs += [r for lv, r in decide.find_assign(g, sx.strip(fl_)[1])]
+            ok = False
+            for r in flagdefs:
+                at = guards.atoms(r, True)
+                if len(at) == 1 and at[0][0] == '<' and at[0][1] == gfs and kexprs and at[0][2] == sx.key(kexprs[0]):
+                    ok = True
+            inst = '%s:%s decodes SILK into its bounce buffer exactly when frame_size is below the buffer\'s size' % (prog.config, g.name)
+            (rep.holds if ok else rep.violated)('R01.1', inst, '%s:%s' % (g.file, sx.line(c)), 'bounce buffer of %s samples per channel, selected by `%s`' % ([sx.show(k) for k in kexprs], [sx.show(r) for r in flagdefs]),
+                                                **({} if ok else {'key': g.name + ':bounce'}))
     # CELT decoder entry guards
     cd = [x for x in prog.functions_all if x.name == 'celt_decode_with_ec_dred']
     if cd:
@@ -203,6 +234,18 @@ def r01_1(rep, prog):
         klen_ = _kp(g, 'len')
         ok, gb, detail = guard_edge(cg, lambda a: a in (('<', klen_, ('int', 0)), ('<=', klen_, ('int', -1))), {b for b, i, c in sinks})
         (rep.holds if ok else rep.violated)('R01.1', '%s:multistream decode rejects negative len before the per-stream decode' % prog.config, g.where(), detail, **({} if ok else {'key': 'ms-len'}))
+        # the per-stream scratch image is sized from the very capacity handed to the stream decoders
+        vla = [(d, sx.A(d).get('vla')) for b, i, s_ in cg.positions() if sx.kind(s_) == 'decls' for d in s_[1] if d[0] == 'decl' and 'vla' in sx.A(d)]
+        for b, i, c in sinks:
+            outp, cap = sx.strip(c[2][3]), sx.strip(c[2][4])
+            mine = [dim for d, dim in vla if sx.kind(outp) == 'local' and d[2] == outp[2]]
+            if not mine:
+                continue
+            dim = sx.strip(mine[0])
+            ok = sx.kind(dim) == 'bin' and dim[1] == '*' and ((sx.int_val(dim[2]) == 2 and sx.key(sx.strip(dim[3])) == sx.key(cap)) or (sx.int_val(dim[3]) == 2 and sx.key(sx.strip(dim[2])) == sx.key(cap)))
+            (rep.holds if ok else rep.violated)('R01.1', '%s:multistream scratch image holds 2 x the capacity passed to each stream decoder' % prog.config, '%s:%s' % (g.file, sx.line(c)),
+                                                'buffer dimension `%s`, capacity argument `%s`' % (sx.show(dim), sx.show(cap)), **({} if ok else {'key': 'ms-scratch'}))
+            break
         v = T.calls_to(cg, 'opus_multistream_packet_validate')
         ok = False
         if v:
